@@ -303,5 +303,5 @@ pub fn property(tier: Tier) -> Property {
             exhaustive: false,
         }));
     }
-    Property { id: "C20", stages, assumptions: vec!["thread interleavings are sampled by stress, not enumerated (DESIGN 7)".into()] }
+    Property { id: "C20", scale: tier.pick(1, 1), stages, assumptions: vec!["thread interleavings are sampled by stress, not enumerated (DESIGN 7)".into()] }
 }
